@@ -8,6 +8,7 @@ import (
 	"github.com/deckhouse/deckhouse/pkg/log"
 	klient "github.com/flant/kube-client/client"
 
+	"github.com/flant/shell-operator/pkg/hook/types"
 	objectpatch "github.com/flant/shell-operator/pkg/kube/object_patch"
 	kubeeventsmanager "github.com/flant/shell-operator/pkg/kube_events_manager"
 	metricstorage "github.com/flant/shell-operator/pkg/metric_storage"
@@ -15,6 +16,7 @@ import (
 	schedulemanager "github.com/flant/shell-operator/pkg/schedule_manager"
 	"github.com/flant/shell-operator/pkg/task"
 	"github.com/flant/shell-operator/pkg/task/queue"
+	"github.com/flant/shell-operator/pkg/webhook/conversion"
 )
 
 // VerifNewManagerEventsHandler exposes the unexported constructor of the events consumer to the
@@ -105,4 +107,28 @@ func (op *ShellOperator) VerifC03RunObserved(tune func(q *queue.TaskQueue),
 		}
 	}
 	op.ManagerEventsHandler.Start()
+}
+
+// VerifC03InitConversion does on an assembled operator what initConversionWebhookManager does, leaving
+// out Init() (reads the certificates) and Start() (listens): the real conversionEventHandler is
+// installed, the conversion bindings of every hook are enabled, and the manager gets its real
+// WebhookHandler (chi router), which is returned. nil means that no hook has a
+// kubernetesCustomResourceConversion binding.
+func (op *ShellOperator) VerifC03InitConversion() *conversion.WebhookHandler {
+	if op.HookManager == nil || op.ConversionWebhookManager == nil {
+		return nil
+	}
+	hookNames, _ := op.HookManager.GetHooksInOrder(types.KubernetesConversion)
+	if len(hookNames) == 0 {
+		return nil
+	}
+	op.ConversionWebhookManager.EventHandlerFn = op.conversionEventHandler
+	for _, hookName := range hookNames {
+		h := op.HookManager.GetHook(hookName)
+		h.HookController.EnableConversionBindings()
+	}
+	handler := conversion.NewWebhookHandler()
+	handler.Manager = op.ConversionWebhookManager
+	op.ConversionWebhookManager.Handler = handler
+	return handler
 }
